@@ -1,6 +1,7 @@
 package main
 
 import (
+	"fmt"
 	"go/token"
 
 	"golang.org/x/tools/go/ssa"
@@ -255,6 +256,43 @@ func propC02(c *Check) {
 			c.LoopGate(f, lp, Gate{Name: "SetCanonicalBytes err != nil => false", RejectOnTrue: true, Min: 2,
 				Cond: BinEither(token.NEQ, Extract(1, Call("(*filippo.io/edwards25519.Scalar).SetCanonicalBytes")), ConstNil)}, "z_i and s_i are canonical scalars")
 		}
+	}
+	// ---- verdict expressions of the two Schnorr verifiers: a non-false verdict is exactly the
+	// group-equation test "== 1" (an inverted or weakened comparison accepts invalid signatures)
+	if f := c.F("(*crypto.Key).VerifyWithChallenge"); f != nil {
+		n, bad := 0, ""
+		pk := Extract(0, Call("crypto.decodePoint", Has(Param("publicKey"))))
+		rs := Extract(0, Call("crypto.decodePoint", Has(Param("sig"))))
+		bsc := Extract(0, Call("(*filippo.io/edwards25519.Scalar).SetCanonicalBytes", nil, Has(Param("sig"))))
+		negA := Call("(*filippo.io/edwards25519.Point).Negate", nil, pk)
+		rr := Call("(*filippo.io/edwards25519.Point).VarTimeDoubleScalarBaseMult", nil, Param("a"), negA, bsc)
+		for _, r := range allReturns(f) {
+			v := retValue(r, 0)
+			if ConstBool(false)(v) {
+				continue
+			}
+			n++
+			if !Bin(token.EQL, Call("(*filippo.io/edwards25519.Point).Equal", rr, rs), ConstInt(1))(v) {
+				bad = instrPos(w, r)
+			}
+		}
+		c.Require(n == 1 && bad == "", "shape", shortName(f)+"|verdict = ([s]B - [a]A == R)", "the only non-false verdict is VarTimeDoubleScalarBaseMult(a, -A, s).Equal(R) == 1 with A decoded from the key, R and s from the signature", fmt.Sprintf("non-false returns: %d; offending return %q", n, bad), c.W.Pos(f.Pos()))
+	}
+	if f := c.F("(*crypto.BatchVerifier).Verify"); f != nil {
+		n, bad := 0, ""
+		msm := Call("(*filippo.io/edwards25519.Point).VarTimeMultiScalarMult")
+		for _, r := range allReturns(f) {
+			v := retValue(r, 0)
+			if ConstBool(false)(v) {
+				continue
+			}
+			n++
+			if !Bin(token.EQL, Call("(*filippo.io/edwards25519.Point).Equal", msm, Call("filippo.io/edwards25519.NewIdentityPoint")), ConstInt(1))(v) {
+				bad = instrPos(w, r)
+			}
+		}
+		cof := findCalls(f, "(*filippo.io/edwards25519.Point).MultByCofactor")
+		c.Require(n == 1 && bad == "" && len(cof) == 1, "shape", shortName(f)+"|verdict = (cofactor * combination == identity)", "the only non-false verdict of the batch verifier is VarTimeMultiScalarMult(scalars, points), multiplied by the cofactor, .Equal(identity) == 1", fmt.Sprintf("non-false returns: %d; offending return %q; cofactor multiplications: %d", n, bad, len(cof)), c.W.Pos(f.Pos()))
 	}
 	if f := c.F("crypto.AggregateVerify"); f != nil {
 		rets := acceptReturns(f)
